@@ -906,8 +906,15 @@ func (c *Client) q(m *spb.ModifyRequest) {
 	c.awaiting.RLock()
 	defer c.awaiting.RUnlock()
 
-	if !chIsClosed(c.sendExitCh) {
-		c.qs.modifyCh <- m
+	if chIsClosed(c.sendExitCh) {
+		return
+	}
+	// The sender may exit (e.g., because the stream failed) whilst we are waiting
+	// for space in the channel - in which case nothing will ever read from it, so
+	// we must not block forever holding the awaiting lock.
+	select {
+	case c.qs.modifyCh <- m:
+	case <-c.sendExitCh:
 	}
 }
 
